@@ -112,7 +112,7 @@ def explore_instance(job: dict) -> dict:
 def jobs_for(ctx: Ctx) -> list[dict]:
     names = ["U1", "U2", "U3", "U4", "U4b", "U5", "U6", "U7", "U8"]
     jobs = []
-    budget = 150 if ctx.quick else 1500
+    budget = 1200 if ctx.quick else 3000  # safety net only; bounds are the state caps
     deadline = time.time() + budget
     for n in names:
         for store, fmt in CONFIGS:
@@ -130,7 +130,10 @@ def jobs_for(ctx: Ctx) -> list[dict]:
         for n in names:
             jobs.append({"universe": n, "store": "fs", "fmt": "ff", "clock": "preserving",
                          "max_states": 20000, "deadline": deadline, "overrides": {"native_parser": True}})
-    return seeded_order(jobs, ctx.seed)
+    jobs = seeded_order(jobs, ctx.seed)
+    big = {"U2": 0, "U4": 1, "U1": 2, "U8": 3}
+    jobs.sort(key=lambda j: (j["clock"] != "preserving", big.get(j["universe"], 9)))  # long instances first
+    return jobs
 
 
 def run(ctx: Ctx, only: list[str] | None = None) -> Result:
